@@ -700,8 +700,8 @@ func genFilter09(rng *Rng) c09FilterCase {
 	for i := 0; i < n; i++ {
 		f := c09Rows[rng.Intn(len(c09Rows))]
 		for _, g := range c.Fss {
-			if g.Path == f.Path {
-				f.Create = g.Create // same domain restriction as C08: uniform create flag per path
+			if g.Path == f.Path || strings.HasPrefix(f.Path, g.Path+"/") || strings.HasPrefix(g.Path, f.Path+"/") {
+				f.Create = g.Create // same domain restriction as C08: uniform create flag on prefix-related paths
 			}
 		}
 		c.Fss = append(c.Fss, f)
